@@ -12,7 +12,7 @@ import (
 func C17Plan() *vlib.Plan {
 	p := &vlib.Plan{
 		Property: "C17", Level: "model_checking", Procs: 16,
-		Rule:   "E-SCHED: the real code runs under a controlled cooperative scheduler (one runnable thread at a time; scheduling points at every lock/unlock, every atomic operation, every instrumented field access and every conn read/write), depth-first over schedules with iterative deviation bounding (every non-default scheduling choice costs one), plus a vector-clock happens-before race detector on the instrumented fields. S1: all multisets of 3 single-operation threads (thorough: also all 2 x 2-operation thread pairs) over 19 session-cache / entry operations on colliding sessions and command keys; every execution's results and final state must equal those of some sequential order of the calls (brute-force linearisation on the real structure) with no race or deadlock. S2: 2 (thorough 3) concurrent client.ConnectAndAuthenticateWithConfig calls sharing one SecurityConfig and cache against concurrent server.ServeConn (plain, and with SecurityConfigForCommand returning one shared policy object), fresh and all resuming one session: no race, every connection succeeds as it does alone. S3: one established encrypted stream with a writer and a reader thread on each end: no race on any Stream field, all messages intact. S4: one CCB broker registration (ccb/listener.go) with its encrypted broker stream established: two writeToBroker callers (heartbeat, request result) + serve's reader + the broker on the far end (every control ad intact), and writer + closeConn + the Listener's status getters (no race, no deadlock, no torn status). S5: three threads drawing two session-id counter values each (atomic operations are scheduling points): all values distinct. state = scenario / thread-program tuple; transitions = scheduling points executed; every execution is the implementation itself.",
+		Rule:   "E-SCHED: the real code runs under a controlled cooperative scheduler (one runnable thread at a time; scheduling points at every lock/unlock, every atomic operation, every instrumented field access and every conn read/write), depth-first over schedules with iterative deviation bounding (every non-default scheduling choice costs one), plus a vector-clock happens-before race detector on the instrumented fields. S1: all multisets of 3 single-operation threads (thorough: also all 2 x 2-operation thread pairs) over 19 session-cache / entry operations on colliding sessions and command keys; every execution's results and final state must equal those of some sequential order of the calls (brute-force linearisation on the real structure) with no race or deadlock. S2: 2 (thorough 3) concurrent client.ConnectAndAuthenticateWithConfig calls sharing one SecurityConfig and cache against concurrent server.ServeConn (plain, and with SecurityConfigForCommand returning one shared policy object), fresh and all resuming one session: no race, every connection succeeds as it does alone. S3: one established encrypted stream with a writer and a reader thread on each end: no race on any Stream field, all messages intact. S4: one CCB broker registration (ccb/listener.go) with its encrypted broker stream established: two writeToBroker callers (heartbeat, request result) + serve's reader + the broker on the far end (every control ad intact), and writer + closeConn + the Listener's status getters (no race, no deadlock, no torn status). S5: three threads drawing two session-id counter values each (atomic operations are scheduling points): all values distinct. S6: 2 and 3 threads making a process's first uses of the package-global session cache (lazy construction + import of the sessions inherited through the environment; the package's lazy state is reset before every execution through a seam): one cache for all, with the inherited sessions visible to every caller. state = scenario / thread-program tuple; transitions = scheduling points executed; every execution is the implementation itself.",
 		Assume: []string{"sequentially consistent interleavings only (no weak-memory behaviours); races are reported on instrumented fields only (SessionEntry.{expiration,lastPeerVersion,inherited}, SessionCache.{sessions,commandMap}, SecurityConfig.ECDHPublicKey, all stream.Stream fields, brokerReg.{stream,conn,contact,cookie,brokerStreaming,registered})", "a free-running `go test -race` of the same bodies is run as a supplement by tools/race_supplement.sh and never decides"},
 	}
 	p.Gen = func(tier string, yield func(vlib.Case)) {
@@ -61,6 +61,8 @@ func C17Plan() *vlib.Plan {
 		}
 		yield(vlib.Case{ID: "S3/stream", Run: func() *vlib.Result { return s3Case(b3, maxExecs) }})
 		yield(vlib.Case{ID: "S5/session-counter", Run: func() *vlib.Result { return s5Case(b1+1, maxExecs) }})
+		yield(vlib.Case{ID: "S6/first-use/threads=2", Run: func() *vlib.Result { return s6Case(2, b1+1, maxExecs) }})
+		yield(vlib.Case{ID: "S6/first-use/threads=3", Run: func() *vlib.Result { return s6Case(3, b1, maxExecs) }})
 		yield(vlib.Case{ID: "S4/io", Run: func() *vlib.Result { return s4Case("io", b3, maxExecs) }})
 		yield(vlib.Case{ID: "S4/lifecycle", Run: func() *vlib.Result { return s4Case("lifecycle", b3+1, maxExecs) }})
 	}
